@@ -225,7 +225,7 @@ class ManageSieveConnection:
         responses: list[ChallengeResponse] = []
         if cmd.initial_data is not None:
             try:
-                resp_dec = b64decode(cmd.initial_data)
+                resp_dec = b64decode(cmd.initial_data, validate=True)
             except binascii.Error:
                 return Response(Condition.NO,
                                 text='Invalid authentication response.')
@@ -249,7 +249,7 @@ class ManageSieveConnection:
                     return Response(Condition.NO,
                                     text='Authentication cancelled.')
                 try:
-                    resp_dec = b64decode(resp_str.value)
+                    resp_dec = b64decode(resp_str.value, validate=True)
                 except binascii.Error:
                     return Response(Condition.NO,
                                     text='Invalid authentication response.')
